@@ -120,6 +120,7 @@ def observe(name, X, rep, pipeline, k=None):
     n = len(X)
     full = represent(X, rep)
     full0 = full.copy()
+    names0 = tuple(full.index.names) if isinstance(full, (pd.Series, pd.DataFrame)) else None  # (copies may share the Index object)
     try:
         if pipeline == "same":
             det.fit(full)
@@ -136,16 +137,16 @@ def observe(name, X, rep, pipeline, k=None):
         if pipeline == "same":
             d = det.transform(full)
             obs["dense"] = d.to_numpy()
-            obs["dense_index_ok"] = bool(d.index.equals(expected_index(rep, n)))
+            obs["dense_index_ok"] = bool(d.index.equals(expected_index(rep, n)) and tuple(d.index.names) == tuple(expected_index(rep, n).names))
             try:
                 ts = det.transform_scores(full)
                 obs["tscores"] = np.asarray(ts, dtype=float)
-                obs["tscores_index_ok"] = bool(ts.index.equals(expected_index(rep, n)))
+                obs["tscores_index_ok"] = bool(ts.index.equals(expected_index(rep, n)) and tuple(ts.index.names) == tuple(expected_index(rep, n).names))
             except NotImplementedError:
                 pass
         same_input = np.array_equal(np.asarray(full), np.asarray(full0))
         if isinstance(full, (pd.Series, pd.DataFrame)):
-            same_input = same_input and full.index.equals(full0.index)
+            same_input = same_input and full.index.equals(full0.index) and tuple(full.index.names) == names0
         if not same_input:
             return {"exc": "InputModified: the data object passed in was modified in place"}
         return obs
